@@ -6,6 +6,7 @@ func init() {
 	w := defaultWeights()
 	w["undelegate"], w["nativeUndelegate"], w["nativeDelegate"], w["delegate"] = 22, 10, 8, 14
 	w["nextBlock"] = 22
+	w["extHold"] = 7
 	w["optOut"], w["optIn"], w["setKey"], w["jail"], w["unjail"], w["slash"] = 3, 3, 3, 1, 1, 4
 	registerWorldProp(&WorldProp{
 		ID: "C03",
@@ -28,6 +29,8 @@ func init() {
 			m.Labels["records-accepted"] += e.accepted
 			m.Labels["records-released"] += e.releases
 			m.Labels["records-postponed-by-hold"] += e.postponed
+			m.Labels["holds-placed-by-a-second-holder"] += m.ExtPlaced
+			m.Labels["holds-released-by-a-second-holder"] += m.ExtReleased
 			m.Labels["collision-prone-states"] += e.collisionProne
 			return e.NonTrivial(), nil
 		},
